@@ -14,17 +14,25 @@
    table (C16_model_transitions).  Restrictions of the nested grammar (computed by in_grammar16): no state tag inside a
    per-event block, at most one conditional (action / guard / next-state) tag on a line and no state / event tag on such a
    line, the alternative text closed.
+   LITERAL TEXT may contain '<' and '>' (lit_ok, Model/EngineDomain.v): a literal contains no "<<<" and does not begin with
+   '<'.  It may end in '<' or "<<" directly before a tag and begin with '>' directly after one ("Exit<<<<STATENAME>>>>()": the
+   engine's tag_pattern and str.replace find the tag at the second '<', the model's match_tag / replace_go do exactly that);
+   such literals are closed under concatenation and under the substitution of '<' '>'-free names (C16_literals_closed), and a
+   text without "<<<" has no tag (C16_no_tag_without_open).  The criterion is sufficient, not necessary: the engine itself only
+   needs that no text of the shape <<<[^<>]*>>> arises.  With it the transition blocks of the shipped TEMPLATEStateMachine.py
+   and TEMPLATEInternals.cs ("-> None:", "<class '", "/// <summary>", "Exit<<<<STATENAMEIFNEXTSTATE>>>>()") are inside the
+   grammar (checked by the harness through in_grammar16 on the block lines read from the shipped files).
+   THE INITIAL STATE: a line outside blocks that mentions <<<STATE_0>>> / <<<state_0>>> (InitLine) is part of the syntax: the first
+   stage, filterInitialState, rewrites exactly these lines (first row's start state, as it is / lowerCamelCase), every later stage
+   and phase leaves the result alone; covered by C16_engine_is_ref(_table) (el_first of the element record = getfirststate).
    STILL PARTIAL: signature / member / documentation / attribute tags are not modelled; the shipped TEMPLATEStateMachine.py /
-   TEMPLATEInternals.cs are outside the grammar, as whole files for that reason and their transition blocks alone because of
-   text with a literal '<' or '>' ("-> None:", "<class '", "/// <summary>", "Exit<<<<STATENAMEIFNEXTSTATE>>>>") -- every other
-   line of the two shipped transition blocks is inside; for these files the engine is tied to the generators' models by
-   execution (C08 / C10).  block_wf keeps three
+   TEMPLATEInternals.cs as whole files are outside the grammar for that reason.  block_wf keeps three
    conditions that are evaluated per (template, table): substituted names carry no '<' '>', no expanded copy is whitespace
    only, none contains the name of an unmodelled tag. *)
 From Coq Require Import String List Bool Arith.
 From KV Require Import Lib.Str Lib.StrOps Lib.ODict Gen.Tags Gen.Pipeline Model.Engine Model.EngineSM Model.EngineDomain Spec.RefExpand
-                       Model.EngineDomain16 Spec.RefExpand16 Lib.TableDef Model.TTable
-                       Proofs.EnginePipe Proofs.EngineC16 Proofs.EngineRepl Proofs.EngineBlock Proofs.EngineTT Proofs.EngineTps Proofs.EngineTrans Proofs.EngineWhole16.
+                       Model.EngineDomain16 Model.Parse16 Spec.RefExpand16 Lib.TableDef Model.TTable
+                       Proofs.EngineStr Proofs.EnginePipe Proofs.EngineC16 Proofs.EngineRepl Proofs.EngineBlock Proofs.EngineTT Proofs.EngineTps Proofs.EngineTrans Proofs.EngineWhole16.
 Import ListNotations.
 Open Scope string_scope.
 Open Scope list_scope.
@@ -72,12 +80,50 @@ Theorem C16_letter : forall i, alphabet_to_string (alpha_at i) = letter i.
 Proof. exact alpha_letter. Qed.
 Print Assumptions C16_letter.
 
-(* str.replace("<<<k>>>", v) on a line rendered from segments (literal pieces without '<' '>', tags) replaces exactly the
+(* str.replace("<<<k>>>", v) on a line rendered from segments (literal pieces of lit_ok, tags) replaces exactly the
    segments that are the tag <<<k>>> and leaves every other segment as it is. *)
 Theorem C16_replace_segmentwise : forall k v l, no_lg k = true -> has_char EQ k = false -> line_ok l = true ->
   replace_all (pat k) v (render_line l) = render_line (map (put k v) l).
 Proof. exact replace_all_render. Qed.
 Print Assumptions C16_replace_segmentwise.
+
+(* Literal text with '<' and '>': the literals of the grammar are closed under concatenation; values without '<' '>' are
+   such literals; a text without "<<<" contains no tag; a literal followed by the end of the line, another literal or a tag
+   has no position where exactly three '<' begin, which are the only positions where tag_pattern can match or an occurrence of
+   <<<k>>> can begin. *)
+Theorem C16_literals_closed : forall a b, lit_ok a = true -> lit_ok b = true -> lit_ok (a ++ b)%string = true.
+Proof. exact lit_ok_app. Qed.
+Print Assumptions C16_literals_closed.
+
+Theorem C16_values_are_literals : forall v, no_lg v = true -> lit_ok v = true.
+Proof. exact no_lg_lit_ok. Qed.
+Print Assumptions C16_values_are_literals.
+
+Theorem C16_no_tag_without_open : forall s, no3 s = true -> findall s = [].
+Proof. exact no3_findall. Qed.
+Print Assumptions C16_no_tag_without_open.
+
+Theorem C16_literal_no_match_position : forall rest s, okhead rest = true -> no3 s = true -> nobad s rest = true.
+Proof. intros rest s H. exact (nobad_lit rest H s). Qed.
+Print Assumptions C16_literal_no_match_position.
+
+Theorem C16_match_needs_three : forall t, bad t = false -> match_tag t = None.
+Proof. exact match_tag_notbad. Qed.
+Print Assumptions C16_match_needs_three.
+
+Theorem C16_occurrence_needs_three : forall k t, no_lg k = true -> prefixb (pat k) t = true -> bad t = true.
+Proof. exact prefix_pat_bad. Qed.
+Print Assumptions C16_occurrence_needs_three.
+
+Example C16_angle_literals :
+  forallb (fun s => line_ok (parse_segs s))
+    ["    def process<<<STATENAME>>>(self, event) -> None:"; "    /// <summary>"; "                sm.Exit<<<<STATENAMEIFNEXTSTATE>>>>();";
+     "                sm.Enter<<<<NEXTSTATENAME>>>>();"; "replace(<class ',).replace('>,)); a << b; x<<<<<T>>>"] = true
+  /\ replace_all (pat "STATENAMEIFNEXTSTATE") "Idle" (render_line (parse_segs "sm.Exit<<<<STATENAMEIFNEXTSTATE>>>>();")) = ("sm.Exit<Idle>();" ++ nl_str)%string
+  /\ findall "sm.Exit<<<<STATENAMEIFNEXTSTATE>>>>();" = ["STATENAMEIFNEXTSTATE"]
+  /\ line_ok [Lit "a<<<b"] = false /\ line_ok [Lit "a"; Lit "<b"] = false /\ line_ok [Tag "X" None; Lit "<b>"] = false.
+Proof. repeat split; vm_compute; reflexivity. Qed.
+Print Assumptions C16_angle_literals.
 
 (* A block of any per-element kind: for EVERY element list and every body of the grammar, the engine's expansion function
    (innerexpand_secondfiltering / _PROTO) returns the reference block: the body once per element, in list order, every name
